@@ -91,6 +91,10 @@ def gen_scenario(rng, cfg):
                 if i == rstage or rng.chance(25):
                     redirs = gen_redirs(rng, allow_bad=cfg.get("bad", True),
                                         hs_sizes=cfg.get("hs_sizes", (0, 1, 5, 100, 70000, 150000)))
+                if redirs and rng.chance(12) and redirs[0]["k"] == "out" and redirs[0]["fd"] == 1 \
+                        and not redirs[0].get("explicit1"):
+                    # an argument ending in a digit glued to the operator: still an argument, not a descriptor number
+                    redirs[0]["glue_arg"] = rng.choice(["-1", "-7", "+3", "x9", "-n2"])
                 name = "c%d_%d" % (ci, i)
                 has_in = any(r["k"] in ("in", "hs") for r in redirs)
                 role = gen_io_role(rng, name, has_in or i > 0)
@@ -133,6 +137,13 @@ class C04Runner(LineRunner):
         if extra and not line.get("probe"):
             raise Violation("fd_target_mismatch", "%s was started with descriptors beyond the named ones: %s (%s)" % (
                 st.label(), extra, ", ".join(self.short(st.pup.fds[fd]["link"]) for fd in extra)))
+        glued = [r["glue_arg"] for r in st.spec.get("redirs", []) if r.get("glue_arg")]
+        if glued:
+            argv = st.pup.hello["argv"][2:]
+            if argv[:len(glued)] != glued:
+                raise Violation("fd_target_mismatch", "%s: the argument glued to the operator arrived as %r, expected %r" % (
+                    st.label(), argv, glued))
+            self.sim.probe("argument_glued_to_operator")
         if st.hs is not None:
             self.sim.probe("here_string_reader_started")
         if "shows_read" in line:
@@ -367,6 +378,15 @@ def explicit_cases():
             {"stages": [{"kind": "builtin", "text": text, "redirs": [dict(r) for r in redirs]}], "probe": False}, dict(probe)],
             "externals": [], "faults": {}, "files": {"in0": "input zero\n", "in1": "x", "f1": "old-f1", "f2": "old-f2"},
             "config": "explicit_builtin", "adversarial_picks": 0}
+        out.append(plines.LineRunner.rebuild(sc))
+    # an argument glued to the operator (`ls -1>out`): the argument stays an argument
+    for gi, (arg, app, spaced) in enumerate((("-1", False, False), ("-2", True, True), ("+1", False, False), ("x9", True, False))):
+        r = {"k": "out", "fd": 1, "append": app, "target": "f%d" % (gi % 4), "spaced": spaced, "explicit1": False, "glue_arg": arg}
+        role = {"t": "io", "read": "none", "code": 0, "writes": [{"fd": 1, "hex": ("glued%d\n" % gi).encode().hex()}]}
+        sc = {"prop": "C04", "lines": [{"stages": [{"kind": "pup", "name": "g%d" % gi, "text": "pup g%d" % gi, "role": role,
+                                                    "redirs": [r]}], "probe": False}, dict(probe)],
+              "externals": [], "faults": {}, "files": {"in0": "input zero\n", "in1": "x", "f1": "old-f1"},
+              "config": "explicit_glued", "adversarial_picks": 0}
         out.append(plines.LineRunner.rebuild(sc))
     return out
 
